@@ -465,6 +465,9 @@ func checkInvalid(c invalidCase) *vlib.Failure {
 			f.Msg += fmt.Sprintf("\ninput: %.400q", data)
 			return f
 		}
+		if o.Skipped {
+			return nil
+		}
 		if !errAt(o, call) {
 			return vlib.Failf("invalid-line-accepted", "%s reader: %s at record %d was not reported as an error by call %d (errors at calls %v, %d calls, EOF=%v)\ninput: %.400q",
 				r, c.Kind, call, call, o.ErrAtCall, o.Calls, o.SawEOF, data)
